@@ -99,7 +99,9 @@ GSW = REG.add(Contract(
 # ---------------------------------------------------------------- LASFile model (sections as fields)
 REG.classes.setdefault("LASFile", {"module": "las", "bases": [], "closed": False, "fields": {}})
 REG.classes["LASFile"]["fields"].update({
-    "sections": ("rec", {"Version": "$sec_Version", "Well": "$sec_Well", "Curves": "$sec_Curves", "Parameter": "$sec_Parameter"}),
+    "sections": ("rec", {"Version": "$sec_Version", "Well": "$sec_Well", "Curves": "$sec_Curves", "Parameter": "$sec_Parameter",
+                         "*": "$sec_custom"}),
+    "$sec_custom": ("strmap",),
     "$sec_Version": LI.SI, "$sec_Well": LI.SI, "$sec_Curves": LI.SI, "$sec_Parameter": LI.SI,
 })
 for _nm in ("version", "well", "curves", "params"):
